@@ -6,7 +6,7 @@
 //!   progsim <prog,prog,..|all> <proc-tag> <runs> <abs-out.ndjson> [slice i/n]
 //!
 //! One event per program and run:
-//!   {"e":"sim","prog":..,"proc":..,"run":..,"verdict":"ok"|"panic","msg":..,"crate":<content-hash
+//!   {"e":"sim","prog":..,"proc":..,"run":..,"verdict":"ok"|"panic"|"env" (cargo environment failure),"msg":..,"crate":<content-hash
 //!    crate/bin name chosen by trybuild>,"src":<hash of the generated source>,"srclen":..}
 //! The crate name is observed through the `hydro_build` tracing spans of
 //! hydro_lang::compile::trybuild::generate (field `bin_name`), the generated source is read back
@@ -115,6 +115,13 @@ fn run_isolated(f: impl FnOnce() + Send + 'static) -> Outcome {
     }
 }
 
+fn is_env_failure(msg: &str) -> bool {
+    msg.contains("unexpected recompilation in final build")
+        || msg.contains("dep prebuild failed")
+        || msg.contains("Blocking waiting for file lock")
+        || msg.contains("No space left on device")
+}
+
 fn build_one(name: &str) -> Outcome {
     q::build_one(name).or_else(|| t::build_one(name)).unwrap_or_else(|| panic!("unknown program {name}"))
 }
@@ -161,7 +168,20 @@ fn main() {
     for name in &names {
         for run in 1..=runs {
             bins.0.lock().unwrap().clear();
-            let o = build_one(name);
+            let mut o = build_one(name);
+            // The trybuild target directory is shared with other harness crates; a concurrent build
+            // of another project can invalidate the prebuilt dependencies under our feet.  That is
+            // an environment failure (cargo), not a verdict about the program: retry, then say so.
+            let mut attempts = 1;
+            while o.verdict == "panic" && is_env_failure(&o.msg) && attempts < 4 {
+                std::thread::sleep(std::time::Duration::from_secs(5 * attempts));
+                bins.0.lock().unwrap().clear();
+                o = build_one(name);
+                attempts += 1;
+            }
+            if o.verdict == "panic" && is_env_failure(&o.msg) {
+                o.verdict = "env";
+            }
             let seen = bins.0.lock().unwrap().clone();
             let krate = seen.last().cloned().unwrap_or_default();
             let src = if krate.is_empty() {
